@@ -162,7 +162,7 @@ namespace jsoncons {
             *this = parse(str, ec);
             if (JSONCONS_UNLIKELY(ec))
             {
-                JSONCONS_THROW(std::system_error(ec, std::string(str)));
+                JSONCONS_THROW(json_runtime_error<std::invalid_argument>(ec.message() + ": " + std::string(str)));
             }
         }
 
@@ -213,7 +213,7 @@ namespace jsoncons {
                 {
                     if (!validate_port(port))
                     {
-                        JSONCONS_THROW(std::system_error(uri_errc::invalid_port, std::string(port)));
+                        JSONCONS_THROW(json_runtime_error<std::invalid_argument>("Invalid port: " + std::string(port)));
                     }
 
                     uri_string_.append(":");
